@@ -59,6 +59,9 @@ package deferred
 //@   ensures configuration_kept [C20]: result.outPath == outPath && result.roots == roots && result.opts == opts
 
 //@ func NewDeferredCarWriterForStream
+//@   call[append#0] assert default_first_in_a_fresh_slice [C20]: len(arg0) == 1 && ref(arg1) == ref(old(opts))
+//@   note default_first_in_a_fresh_slice: WriteAsCarV1(true) is only a default: it comes first so that the caller's options
+//@   note override it, and the caller's slice is copied (appended to a fresh one), never appended to
 //@   effects require never [C20]: false
 //@   ensures lazy [C20]: result.w == nil && result.f == nil && !result.closed
 //@   ensures no_path [C20]: len(result.outPath) == 0
